@@ -258,7 +258,20 @@ def r4_follow_last_only(ctx):
     return out
 
 
+def r5_trailing_slash(ctx):
+    """The emulated procfs walk keeps empty components (opened as '.'), so 'environ/' is ENOTDIR and
+    'cwd/' is refused like the kernel does -- trailing-slash fidelity of the two procfs resolvers."""
+    from .c01 import r4_empty_component
+    out = []
+    for i in r4_empty_component(ctx):
+        if i.key.startswith("opath_resolve:"):
+            i.rule = "C07.R5"
+            out.append(i)
+    return out
+
+
 RULES = [
+    ("C07.R5", r5_trailing_slash, 1, False),
     ("C07.R1", r1_walk, 5, False),
     ("C07.R2", r2_forced_nofollow, 3, False),
     ("C07.R3", r3_creation_flags, 4, False),
